@@ -544,6 +544,14 @@ class SOpaque(Sym):
     def truth(self, ctx):
         return True
 
+    def havoc(self, ctx, name):
+        return SOpaque(name, attrs=self.attrs, methods=self.methods)
+
+    def call(self, ctx, args, kwargs):
+        if '__call__' in self.methods:
+            return self.methods['__call__'](ctx, self, *args, **kwargs)
+        raise Unsupported('call of opaque %s' % self.label)
+
     def __repr__(self):
         return 'SOpaque<%s>' % self.label
 
